@@ -26,15 +26,18 @@ Pts(r) == {p \in U \X U : In(r, p[1], p[2])}
 Ext(lo, hi) == {x \in U : InExt(lo, hi, x)}
 
 \* range forms of core::ops: "rg" a..b  "ri" a..=b  "to" ..b  "toi" ..=b  "from" a..  "full" ..
+\* and pairs of explicit bounds with an excluded start: "ex" (Excluded a, Excluded b)  "exi" (Excluded a, Included b)
 InForm(f, a, b, x) ==
   CASE f = "rg" -> x >= a /\ x < b
     [] f = "ri" -> x >= a /\ x <= b
     [] f = "to" -> x < b
     [] f = "toi" -> x <= b
     [] f = "from" -> x >= a
+    [] f = "ex" -> x > a /\ x < b
+    [] f = "exi" -> x > a /\ x <= b
     [] OTHER -> TRUE
-HasLo(f) == f \in {"rg", "ri", "from"}
-HasHi(f) == f \in {"rg", "ri", "to", "toi"}
+HasLo(f) == f \in {"rg", "ri", "from", "ex", "exi"}
+HasHi(f) == f \in {"rg", "ri", "to", "toi", "ex", "exi"}
 
 \* e.a, e.b, e.res (rects) are sequences <<l, t, r, b>>
 Allowed(e) ==
